@@ -54,13 +54,18 @@ func (r *Rule) Inflected(s string) string {
 
 func (r *Rule) inflected(s string) string {
 	if res := r.compiledIrregular.FindStringSubmatch(s); len(res) >= 3 {
-		var buf strings.Builder
+		// (?i) matches by case folding (e.g. U+017F for 's'), which ToLower does not undo:
+		// only words that are really in the table are irregular
+		if replacement, ok := r.irregularMap[strings.ToLower(res[2])]; ok && len(replacement) > 0 {
+			var buf strings.Builder
 
-		buf.WriteString(res[1])
-		buf.WriteString(s[0:1])
-		buf.WriteString(r.irregularMap[strings.ToLower(res[2])][1:])
+			// keep everything before the word, and the case of the word's own first letter
+			buf.WriteString(res[1])
+			buf.WriteString(res[2][0:1])
+			buf.WriteString(replacement[1:])
 
-		return buf.String()
+			return buf.String()
+		}
 	}
 
 	if r.compiledUninflected.MatchString(s) {
